@@ -2,8 +2,8 @@ INIT Init
 NEXT Next
 CONSTANTS
   Names = {"a", "b"}
-  MaxCost = 2
-  Directed = FALSE
-  CompleteUpTo = 2
+  MaxCost = 4
+  Directed = TRUE
+  CompleteUpTo = 0
 INVARIANTS Dbg RT GenOK
 CHECK_DEADLOCK FALSE
